@@ -90,6 +90,22 @@ func c05Ranks(nsrv int, blkid arvados.SizedDigest) []int {
 	return rank
 }
 
+// c05Resize gives a block another size hint: the empty block under its real name, another hash with +0, small and
+// maximal sizes (only the first 32 characters matter for rendezvous rank and device order)
+func c05Resize(blk arvados.SizedDigest, r *vRand) arvados.SizedDigest {
+	switch r.Intn(8) {
+	case 0:
+		return arvados.SizedDigest("d41d8cd98f00b204e9800998ecf8427e+0")
+	case 1:
+		return arvados.SizedDigest(string(blk[:32]) + "+0")
+	case 2:
+		return arvados.SizedDigest(string(blk[:32]) + "+67108864")
+	case 3:
+		return arvados.SizedDigest(string(blk[:32]) + "+3")
+	}
+	return blk
+}
+
 var c05IdentCache = map[int]arvados.SizedDigest{}
 
 // a block id for which service i has rendezvous position i (servers are interchangeable apart from
@@ -245,11 +261,11 @@ func c05Run(lay *c05Layout) (string, map[string]interface{}, []string, bool) {
 			bal.BlockStateMap.AddReplicas(mnts[0], []arvados.KeepServiceIndexEntry{{SizedDigest: otherBlk, Mtime: 7}})
 		}
 		for k, cl := range lay.colls {
-			mt := fmt.Sprintf(". %s 0:1:f\n", otherBlk)
+			mt := fmt.Sprintf(". %s 0:0:f\n", otherBlk)
 			if cl.refs {
-				mt = fmt.Sprintf(". %s %s 0:2:f\n", lay.blkid, otherBlk)
+				mt = fmt.Sprintf(". %s %s 0:0:f\n", lay.blkid, otherBlk)
 				if k%2 == 1 {
-					mt = fmt.Sprintf(". %s 0:1:f\n", lay.blkid)
+					mt = fmt.Sprintf(". %s 0:0:f\n", lay.blkid)
 				}
 			}
 			if err := bal.addCollection(arvados.Collection{UUID: fmt.Sprintf("zzzzz-4zz18-%015d", k), ManifestText: mt, ReplicationDesired: cl.repl, StorageClassesDesired: cl.classes}); err != nil {
@@ -774,7 +790,7 @@ func TestVerifC05Coll(t *testing.T) {
 		r := vCaseRand(seed, i)
 		var lay *c05Layout
 		var stratum string
-		switch i % 8 {
+		switch i % 10 {
 		case 0, 1, 2:
 			lay, stratum = c05GenGeneral(r), "general"
 		case 3:
@@ -783,11 +799,17 @@ func TestVerifC05Coll(t *testing.T) {
 			lay, stratum = c05GenMulti(r), "class-twice-on-server-x-nonmember-elsewhere"
 		case 6:
 			lay, stratum = c05GenNoMount(r), "desired-class-without-mount"
-		default:
+		case 7:
 			lay, stratum = c05GenTies(r), "ties"
+		case 8:
+			lay, stratum = c05GenLost(r), "no-replica"
+		default:
+			lay, stratum = c05GenAllRO(r), "all-read-only"
 		}
 		lay.desired = nil
 		lay.colls, lay.defRepl = c05GenColls(r)
+		// the lost-blocks report and the statistics pass see the block's size hint
+		lay.blkid = c05Resize(lay.blkid, r)
 		term, desc, tags, nontriv := c05Run(lay)
 		desc["index"] = i
 		desc["stratum"] = stratum
@@ -800,7 +822,7 @@ func TestVerifC05Coll(t *testing.T) {
 				}
 			}
 		}
-		tags = append(tags, fmt.Sprintf("referencing-collections=%d", nref))
+		tags = append(tags, fmt.Sprintf("referencing-collections=%d", nref), "size-hint:"+strings.SplitN(string(lay.blkid), "+", 2)[1])
 		if multi > 0 {
 			tags = append(tags, "multi-class-collection")
 		}
